@@ -8,6 +8,7 @@ PARTS = {
     "codec.small": (codec.run_small, codec.replay),
     "codec.prod": (codec.run_prod, codec.replay),
     "stream.main": (stream.run_stream, stream.replay),
+    "codec.footprint": (codec.run_footprint, codec.replay_footprint),
     "pipe.random": (pipe.run_random, pipe.replay),
 }
 
@@ -18,12 +19,12 @@ PROPERTY_PARTS = {
     "C01": ["codec.small", "codec.prod"],
     "C02": ["codec.small", "codec.prod"],
     "C07": ["codec.small", "codec.prod"],
-    "C09": ["codec.small", "codec.prod"],
+    "C09": ["codec.small", "codec.prod", "codec.footprint"],
     "C08": ["stream.main"],
     "C03": ["pipe.random"],
     "C04": ["pipe.random"],
-    "C05": ["pipe.random"],
+    "C05": ["pipe.random", "codec.small", "codec.prod"],
     "C20": ["pipe.random"],
-    "C10": ["pipe.random"],
+    "C10": ["pipe.random", "codec.footprint", "codec.small", "codec.prod", "stream.main"],
     "C06": ["stream.main"],
 }
